@@ -31,17 +31,61 @@ type UnprovedList struct {
 	// parameter) stays unclaimed instead of being reported.
 	Funcs map[string]bool
 	Cut   map[string]bool // paths whose description was cut at the depth limit
+	// Ctx: for each unclaimed obligation, the validators (module functions with
+	// an error result) that had run on every path before it when the baseline was
+	// recorded (baseline/C15-context.json). An obligation stays unclaimed only
+	// while those still run before it: the same dereference moved in front of the
+	// call that used to reject the bad document is a new, claimed obligation.
+	Ctx     map[string][]string
+	PathCtx map[string][][]string
+	PathFn  map[string][]string
+	HasCtx  bool
 }
 
-func (u *UnprovedList) skip(fn, name string, params map[string]bool) bool {
-	if u.Names[name] {
+func subsetOf(a, b []string) bool {
+	have := map[string]bool{}
+	for _, x := range b {
+		have[x] = true
+	}
+	for _, x := range a {
+		if !have[x] {
+			return false
+		}
+	}
+	return true
+}
+
+// ctxOK: some baseline obligation with path q had no more validators before it
+// than this one has.
+func (u *UnprovedList) ctxOK(q, fn string, ctx []string) bool {
+	if !u.HasCtx {
+		return true
+	}
+	// the rule compares within one function: the validators of another function
+	// are not comparable (a path that is unclaimed only elsewhere matches as it is)
+	same := false
+	for i, c := range u.PathCtx[q] {
+		if u.PathFn[q][i] != fn {
+			continue
+		}
+		same = true
+		if subsetOf(c, ctx) {
+			return true
+		}
+	}
+	return !same
+}
+
+func (u *UnprovedList) skip(fn, name string, params map[string]bool, ctx []string) bool {
+	if u.Names[name] && (!u.HasCtx || subsetOf(u.Ctx[name], ctx)) {
 		return true
 	}
 	p := unprovedPath(name)
 	if p == "" {
+		// other kinds: by name only, but with the same validator rule through the function
 		return false
 	}
-	if u.Paths[p] {
+	if u.Paths[p] && u.ctxOK(p, fn, ctx) {
 		return true
 	}
 	// a description cut at its depth limit ("_" for the part not shown) names
@@ -59,7 +103,7 @@ func (u *UnprovedList) skip(fn, name string, params map[string]bool) bool {
 			if len(short) > len(long) {
 				short, long = long, short
 			}
-			if strings.Count(short, ".") >= 2 && strings.HasSuffix(long, short) {
+			if strings.Count(short, ".") >= 2 && strings.HasSuffix(long, short) && u.ctxOK(q, fn, ctx) {
 				return true
 			}
 		}
@@ -108,7 +152,12 @@ func unprovedPath(name string) string {
 }
 
 func LoadUnproved(path string) *UnprovedList {
-	u := &UnprovedList{Names: map[string]bool{}, Paths: map[string]bool{}, Funcs: map[string]bool{}, Cut: map[string]bool{}}
+	u := &UnprovedList{Names: map[string]bool{}, Paths: map[string]bool{}, Funcs: map[string]bool{}, Cut: map[string]bool{}, Ctx: map[string][]string{}, PathCtx: map[string][][]string{}, PathFn: map[string][]string{}}
+	if cd, err := os.ReadFile(strings.TrimSuffix(path, "-unproved.json") + "-context.json"); err == nil {
+		if json.Unmarshal(cd, &u.Ctx) == nil && len(u.Ctx) > 0 {
+			u.HasCtx = true
+		}
+	}
 	if fd, err := os.ReadFile(strings.TrimSuffix(path, "-unproved.json") + "-functions.json"); err == nil {
 		var fs []string
 		if json.Unmarshal(fd, &fs) == nil {
@@ -127,6 +176,12 @@ func LoadUnproved(path string) *UnprovedList {
 			u.Names[n] = true
 			if p := unprovedPath(n); p != "" {
 				u.Paths[p] = true
+				u.PathCtx[p] = append(u.PathCtx[p], u.Ctx[n])
+				if m := reOblName.FindStringSubmatch(n); m != nil {
+					u.PathFn[p] = append(u.PathFn[p], m[1])
+				} else {
+					u.PathFn[p] = append(u.PathFn[p], "")
+				}
 				if m := reOblName.FindStringSubmatch(n); m != nil && strings.HasPrefix(m[3], "_") {
 					u.Cut[p] = true
 				}
@@ -142,6 +197,7 @@ type SweepOptions struct {
 	Unproved   *UnprovedList
 	Record     bool // baseline mode: record failures instead of reporting them
 	SafetyProp string
+	CtxOut     map[string][]string // record mode: validators before each unproved obligation
 }
 
 // sweepFunctions verifies the safety and thin-contract obligations of fns.
@@ -166,6 +222,7 @@ func (cr *CheckRun) sweepFunctions(w *World, fns []*ssa.Function, nameOf func(*s
 			}()
 			e := &FuncEnc{W: w, Fn: f, Name: nameOf(f), D: NewDecls(), Contract: w.ContractFor(f)}
 			e.PostEncode = func() { tagProps(e, opt.SafetyProp) }
+			e.TrackValidators = true
 			params := map[string]bool{}
 			for _, p := range f.Params {
 				params[p.Name()] = true
@@ -180,7 +237,7 @@ func (cr *CheckRun) sweepFunctions(w *World, fns []*ssa.Function, nameOf func(*s
 				if !has {
 					return false
 				}
-				if !opt.Record && opt.Unproved != nil && opt.Unproved.skip(e.Name, o.Name, params) {
+				if !opt.Record && opt.Unproved != nil && opt.Unproved.skip(e.Name, o.Name, params, o.Ctx) {
 					mu.Lock()
 					skipped++
 					mu.Unlock()
@@ -207,6 +264,13 @@ func (cr *CheckRun) sweepFunctions(w *World, fns []*ssa.Function, nameOf func(*s
 						cr.Discharged++
 					} else {
 						unproved = append(unproved, o.Name)
+						if opt.CtxOut != nil {
+							c := o.Ctx
+							if c == nil {
+								c = []string{}
+							}
+							opt.CtxOut[o.Name] = c
+						}
 					}
 				}
 				mu.Unlock()
@@ -295,6 +359,9 @@ func (cr *CheckRun) CheckGeneratorSafety(record bool) {
 		// the caller's context and named after the caller's argument
 		w.InlineNamed = func(f *ssa.Function) bool { return opt.Unproved.isNew(repoFnName(f)) }
 	}
+	if record {
+		opt.CtxOut = map[string][]string{}
+	}
 	unproved := cr.sweepFunctions(w, fns, repoFnName, opt, replay)
 		cr.Assumed["machine integers treated as mathematical (overflow obligations off for this sweep)"] = true
 	cr.Assumed[fmt.Sprintf("%d safety obligations that do not discharge on the unchanged tree are listed in baseline/C15-unproved.json and are not claimed; they are matched by name or by kind and field path (%d paths), so the same dereference moved into a helper stays unclaimed", len(opt.Unproved.Names), len(opt.Unproved.Paths))] = true
@@ -310,6 +377,8 @@ func (cr *CheckRun) CheckGeneratorSafety(record bool) {
 		sort.Strings(names)
 		data, _ = json.MarshalIndent(names, "", " ")
 		_ = os.WriteFile(strings.TrimSuffix(listPath, "-unproved.json")+"-functions.json", data, 0o644)
+		data, _ = json.MarshalIndent(opt.CtxOut, "", " ")
+		_ = os.WriteFile(strings.TrimSuffix(listPath, "-unproved.json")+"-context.json", data, 0o644)
 	}
 	// exit status: main must reach log.Fatalf whenever generation returned an error
 	cr.checkMainExit(w)
